@@ -78,6 +78,23 @@ impl Property for C18 {
                 "os_entropy": false,
             });
         }
+        if rng.chance(if thorough { 4 } else { 1 }, 5000) {
+            // huge joined file (beyond 8 MiB): partners of one key are spread over the whole file
+            let keys: Vec<[u8; 16]> = (0..3).map(|_| rng.key16()).collect();
+            return json!({
+                "prop": "C18",
+                "kind": "huge_joined",
+                "defs": format!("{} {}", WIDE, JOINED),
+                "stmt": format!("SELECT w.c0, v.x, v.y FROM w INNER JOIN v::'{}' ON w.c0 = v.c0", JOINED_PATH),
+                "lines": ["W kaa 1 0.5 b 2 0.25 c 1 0.75 d", "W kbc 2 0.5 b 2 0.25 c 1 0.75 d"],
+                "joined": [],
+                "joined_gen": {"n": rng.range(450_000, 480_000), "keys": 1000},
+                "keys": keys_to_json(&keys),
+                "repeat": 1,
+                "format": "text",
+                "os_entropy": false,
+            });
+        }
         let kind = *rng.pick(&["star", "star_join", "group", "group", "distinct_real", "distinct_real", "join_real", "join_int", "error_row", "group_special_real", "group_special_real", "name_lookup", "many_groups", "history"]);
         let zero_heavy = kind == "distinct_real" || kind == "join_real" || kind == "group_special_real" || rng.chance(1, 4);
         // REAL values that are not ordinary numbers: NaN, infinities (legal literals for a REAL column)
@@ -226,7 +243,18 @@ impl Property for C18 {
         let repeat = jusize(case, "repeat", 1).clamp(1, 4);
         let features = json!({"kind": kind, "signed_zero": lines.iter().chain(joined.iter()).any(|l| l.contains(" -0"))});
         let file: Vec<u8> = lines.iter().map(|l| format!("{}\n", l)).collect::<String>().into_bytes();
-        let jfile: Vec<u8> = joined.iter().map(|l| format!("{}\n", l)).collect::<String>().into_bytes();
+        let mut jfile: Vec<u8> = joined.iter().map(|l| format!("{}\n", l)).collect::<String>().into_bytes();
+        if let Some(g) = case.get("joined_gen") {
+            // compact description of a huge joined file: line i joins on key number i % keys
+            let n = g.get("n").and_then(|x| x.as_u64()).unwrap_or(0).min(600_000) as usize;
+            let keys = g.get("keys").and_then(|x| x.as_u64()).unwrap_or(1).max(1) as usize;
+            let mut text = String::with_capacity(n * 30);
+            for i in 0..n {
+                text.push_str(&format!("V {} 0.5 {} p{}\n", crate::sqlgen::key_name(5 + i % keys), i, i % 7));
+            }
+            jfile = text.into_bytes();
+            out.probe("joined_file_over_8_mib", (jfile.len() > 8 * 1024 * 1024) as u64);
+        }
         let make = |key: Option<[u8; 16]>, repeat: usize| -> WorldSpec {
             let mut b = batch_spec(&defs, &stmt, &[file.clone()], Some(&jfile));
             b.format = format.clone();
